@@ -201,6 +201,9 @@ def tlc(ctx, sub, module, cfg_kwargs, env=None, workers=16, timeout=3600, deque=
     if heap:
         jto.append("-Xmx%s" % heap)
     jto.append("-Xss512m")
+    # TLC creates an (empty) tlc-<n> directory under java.io.tmpdir per run: keep it inside the scratch directory
+    os.makedirs(os.path.join(d, "jtmp"), exist_ok=True)
+    jto.append("-Djava.io.tmpdir=" + os.path.join(d, "jtmp"))
     e["JAVA_TOOL_OPTIONS"] = " ".join(jto)
     if env:
         e.update({k: str(v) for k, v in env.items()})
@@ -216,6 +219,7 @@ def tlc(ctx, sub, module, cfg_kwargs, env=None, workers=16, timeout=3600, deque=
                wall=time.time() - t, dir=d)
     res["ok"] = p.returncode == 0 and "No error has been found" in out
     shutil.rmtree(os.path.join(d, "md"), ignore_errors=True)
+    shutil.rmtree(os.path.join(d, "jtmp"), ignore_errors=True)
     if not quiet:
         log("[tlc] %s/%s: rc=%d generated=%d distinct=%d %.1fs" % (sub, module, p.returncode, res["generated"],
                                                                     res["distinct"], res["wall"]))
